@@ -1,5 +1,5 @@
 #!/bin/bash
-# usage: controltest.sh [control-dir...]   (default: every directory under controls/)
+# usage: [CONTROL_PROPS="C06 C15"] controltest.sh [control-dir...]   (default: every directory under controls/, all sixteen checks)
 # Negative controls: behaviour-preserving (for the 16 properties) variants of the
 # repository. Every quick check must stay silent on each of them. Prints one line
 # per control and check; exits 1 if any check raised an alarm.
@@ -9,7 +9,7 @@ dirs=("$@"); [ ${#dirs[@]} -eq 0 ] && dirs=(controls/*/)
 bad=0
 for d in "${dirs[@]}"; do
   d=${d%/}
-  props=$(cat "$d/props" 2>/dev/null || echo "C01 C02 C03 C04 C05 C06 C07 C08 C09 C10 C11 C12 C13 C14 C15 C16")
+  props=${CONTROL_PROPS:-$(cat "$d/props" 2>/dev/null || echo "C01 C02 C03 C04 C05 C06 C07 C08 C09 C10 C11 C12 C13 C14 C15 C16")}
   out=$(./seedtest.sh "$d/patch.diff" $props 2>&1)
   echo "$out" | sed "s#^#$(basename $d) #" | cut -c1-260
   echo "$out" | grep -q "rc=[^0]" && bad=1
